@@ -13,6 +13,7 @@ Scope == IOEnv.SCOPE
 
 cA == 97
 cX == 120
+cB == 98
 cSC == 59
 cSP == 32
 
@@ -353,6 +354,34 @@ LawScope ==
                      \cup {Replace(Orig(<<cA, NL, cA>>), <<Repl(1, 2, <<cX>>)>>),
                            CC(<<Orig(<<cA>>), Raw("str", <<98>>), Orig(<<cA, NL>>)>>)}}
 
+(* a wrapper in the middle of a tree, asked twice: the second answer of a    *)
+(* CachedSource is replayed from what the first stored, and whatever follows *)
+(* the wrapper is placed after the end the replay reports (C13, C10)         *)
+SameLawTwice(pre, lhs, rhs) ==
+  Prog(pre \o <<[op |-> "build", dst |-> 0, tree |-> lhs]>> \o ObsAll(0)
+       \o <<[op |-> "build", dst |-> 1, tree |-> rhs]>> \o ObsAll(1)
+       \o <<[op |-> "law", law |-> "same", a |-> 0, b |-> 1]>>
+       \o ObsAll(1)
+       \o <<[op |-> "law", law |-> "same", a |-> 0, b |-> 1]>>)
+TailO == Orig(<<cX, NL, cX, NL>>)
+WrappedXs ==
+  LawXs \cup {SmsC, SmsD,
+              CC(<<Orig(<<cA, NL>>), Orig(<<cB, NL>>), Raw("str", <<>>)>>),
+              CC(<<Orig(<<cA, NL>>), Raw("str", <<>>)>>),
+              CC(<<Orig(<<cA>>), Raw("str", <<>>)>>),
+              CC(<<Raw("str", <<>>), Orig(<<cA, NL>>)>>),
+              CC(<<Orig(<<cA, NL>>), Raw("str", <<cB, NL>>)>>),
+              Replace(Orig(<<cA, NL, cA>>), <<Repl(1, 2, <<cX>>)>>),
+              Replace(Orig(<<cA, NL, cA>>), <<Repl(2, 3, <<>>)>>)}
+LawScopeTwice ==
+  IF Scope \notin {"c13"} THEN {} ELSE
+  {SameLawTwice(<<>>, CC(<<x, TailO>>), CC(<<Cached(x), TailO>>)) : x \in WrappedXs}
+  \cup {SameLawTwice(<<>>, CC(<<Raw("str", <<cB>>), x, TailO>>),
+                      CC(<<Raw("str", <<cB>>), Cached(Box(x)), TailO>>)) : x \in WrappedXs}
+  \cup {SameLawTwice(<<[op |-> "build", dst |-> 2, tree |-> Cached(x)]>>,
+                      CC(<<x, x, TailO>>),
+                      CC(<<[k |-> "reg", r |-> 2], [k |-> "reg", r |-> 2], TailO>>)) : x \in WrappedXs}
+
 (* ConcatSource over mapped, empty and raw children in every order (C04,     *)
 (* C03): a pending "close the mapping" must survive empty children          *)
 C04Kids ==
@@ -461,7 +490,6 @@ C06RScope ==
 
 -----------------------------------------------------------------------------
 (* SourceMapSource / default-helper leaves reproduce the given map (C08)    *)
-cB == 98
 C08Texts ==
   {<<cA>>, <<cA, cB>>, <<cA, cB, cA>>, <<cA, NL>>, <<cA, cB, NL>>, <<cA, NL, cB>>,
    <<cA, cB, NL, cA>>, <<cA, NL, cB, cA>>, <<cA, NL, NL>>, <<NL>>, <<NL, cA>>, <<>>,
@@ -1033,7 +1061,7 @@ C16Scope ==
 ProgSet ==
   CASE Scope \in {"c01", "c02"} -> {Prog(<<Build(t)>> \o StreamObs) : t \in TreesSmall}
     [] Scope = "c05" -> Hist2 \cup Hist3
-    [] Scope = "c13" -> LawScope \cup LawScopeNamed
+    [] Scope = "c13" -> LawScope \cup LawScopeNamed \cup LawScopeTwice
     [] Scope = "c17" -> C17Scope
     [] Scope = "c04" -> C04Scope
     [] Scope = "c06" -> C06Scope
